@@ -378,6 +378,9 @@ class MultiIndex(LExpr):
         else:
             stride = [np.prod(sizes[i:]) for i in range(dim)] + [LiteralInt(1)]
             self.global_index = Sum(n * sym for n, sym in zip(stride[1:], symbols))
+        # A multi-index is printed as its global index: bind like that expression
+        # so that a parent operator parenthesises it
+        self.precedence = self.global_index.precedence
 
     @property
     def dim(self):
